@@ -27,16 +27,20 @@ DESIGN_REF = "DESIGN.md §3 C21"
 TECHNIQUE = "exhaustive unit-pair enumeration x Hypothesis-generated decimals against a rational reference unit system"
 RULE = ("all 51x51 ordered unit pairs enumerated; per pair Hypothesis draws decimal-string value pairs "
         "(random, exact conversion images, images +- 1e-25 relative). Non-trivial = the two units differ and belong to "
-        "one quantity (a conversion is needed). Distinct = distinct (unit_a, unit_b, value_a, value_b).")
+        "one quantity (a conversion is needed). Distinct = distinct (unit_a, unit_b, value_a, value_b). Plus registry scenarios "
+        "(each in a forked child): warm-up queries, 1-3 units added at run time, then value pairs involving the new units; "
+        "every registry scenario counts as non-trivial.")
 ASSUMPTIONS = [
+    "units added at run time (UodBuilder.with_measurement_unit) are covered for factor-only relations to seven pint-backed quantities; "
+    "units of a new custom quantity are judged by the order-independence laws only",
     "reference conversion factors are written by hand from SI definitions (day=86400 s, bar=1e5 Pa, degF=(x+459.67)*5/9 K)",
     "values are finite decimal strings; NaN/Infinity and non-numeric strings are out of the stated domain",
     "a same-quantity pair that the code declares non-comparable in BOTH orders (vol% vs wt%) is accepted: the statement "
     "does not say which pairs must be comparable, only that the answer is order independent",
 ]
 TIERS = {
-    "quick": {"per_pair": 24, "budget_s": 100},
-    "thorough": {"per_pair": 600, "budget_s": 1500},
+    "quick": {"per_pair": 24, "budget_s": 100, "registry_cases": 60, "registry_budget_s": 15},
+    "thorough": {"per_pair": 600, "budget_s": 1500, "registry_cases": 3000, "registry_budget_s": 200},
 }
 
 # ---- reference unit system ---------------------------------------------------------------------
@@ -72,7 +76,8 @@ import re
 _DEC_RE = re.compile(r"^-?(\d+(\.\d*)?|\.\d+)([eE][+-]?\d+)?$")
 
 
-def ref_order(va: str, ua, vb: str, ub) -> int:
+def ref_order(va: str, ua, vb: str, ub, REF=None) -> int:
+    REF = REF or globals()["REF"]
     fa, oa = (F(1), 0) if ua is None else REF[ua][1:]
     fb, ob = (F(1), 0) if ub is None else REF[ub][1:]
     x, y = F(va) * fa + oa, F(vb) * fb + ob
@@ -84,7 +89,8 @@ def ref_op(op: str, order: int) -> bool:
             ">=": order >= 0, ">": order > 0}[op]
 
 
-def same_quantity(ua, ub) -> bool:
+def same_quantity(ua, ub, REF=None) -> bool:
+    REF = REF or globals()["REF"]
     if ua is None or ub is None:
         return ua is None and ub is None
     return REF[ua][0] == REF[ub][0]
@@ -98,6 +104,14 @@ def units():
 # ---- oracle on one case -------------------------------------------------------------------------
 
 def check_case(case) -> list[Violation]:
+    if isinstance(case, dict) and case.get("kind") == "registry":
+        return check_registry_case(case)
+    if not (isinstance(case, dict) and all(k in case for k in ("ua", "ub", "va", "vb"))):
+        return []
+    return _check_pair(case, REF)
+
+
+def _check_pair(case, REF) -> list[Violation]:
     from openpectus.lang.exec import units as U
     ua, ub, va, vb = case["ua"], case["ub"], case["va"], case["vb"]
     out: list[Violation] = []
@@ -133,14 +147,14 @@ def check_case(case) -> list[Violation]:
         out.append(Violation("raise-some-ops:" + tag, "compare_values raises for operators %s only: %r" % (sorted(raises_ab), res_ab[sorted(raises_ab)[0]]), case))
     if raises_ab:
         # comparable according to are_comparable but the comparison itself fails
-        if c_ab == ("ok", True) and same_quantity(ua, ub):
+        if c_ab == ("ok", True) and same_quantity(ua, ub, REF):
             out.append(Violation("comparable-but-raises:" + tag, "are_comparable is True but compare_values raises: %r" % (res_ab[sorted(raises_ab)[0]],), case))
         return out
     r = {op: res_ab[op][1] for op in OPS}
-    if not same_quantity(ua, ub):
+    if not same_quantity(ua, ub, REF):
         out.append(Violation("cross-quantity-accepted:" + tag, "units of different quantities were compared without error", case))
         return out
-    order = ref_order(va, ua, vb, ub)
+    order = ref_order(va, ua, vb, ub, REF)
     for op in OPS:
         if r[op] != ref_op(op, order):
             out.append(Violation("exact:%s:%s" % (op, tag), "%s %s %s %s %s -> %r, exact arithmetic says %r"
@@ -162,6 +176,161 @@ def check_case(case) -> list[Violation]:
                                      % (va, ua, op, vb, ub, r[op], vb, ub, MIRROR[op], va, ua, res_ba[MIRROR[op]][1]), case))
                 break
     return out
+
+
+# ---- registry scenarios: units added at run time (UodBuilder.with_measurement_unit -> add_unit) ----------------
+# The unit registry is process-global and additions cannot be undone, so every scenario runs in a forked child.
+# A scenario = warm-up queries (what tag validation / analysis / completion do), then additions of new units to an
+# EXISTING pint-backed quantity (factor-only relation "xuN = k base"), optionally more queries, then value pairs judged
+# by the same laws with the reference table extended by the declared factors.  Units of a new custom quantity without
+# a relation are judged by the order-independence laws only (the statement fixes no conversion for them).
+
+ADDABLE = {  # quantity -> base unit used in the relation (factor-only quantities that pint backs)
+    "time": "s", "length": "cm", "mass": "g", "volume": "mL", "flow": "L/h", "pressure": "bar", "frequency": "Hz",
+}
+
+
+def _registry_child(case):
+    from openpectus.lang.exec import units as U
+    ref = dict(REF)
+    out: list[Violation] = []
+    for u in case.get("warm", []):
+        try:
+            U.get_compatible_unit_names(u)
+            for v in U.get_supported_units()[:8]:
+                U.are_comparable(u, v)
+        except ValueError:
+            pass
+    for a in case["adds"]:
+        unit = a["unit"]
+        if a.get("custom_quantity"):
+            U.add_unit(unit, quantity=a["custom_quantity"])
+            ref[unit] = ("custom:" + a["custom_quantity"], None, 0)
+        else:
+            q, base = a["quantity"], ADDABLE[a["quantity"]]
+            U.add_unit(unit, quantity=q, unit_relation="%s = %s %s" % (unit, a["factor"], base))
+            ref[unit] = (REF[base][0], F(a["factor"]) * REF[base][1], 0)
+        for u in a.get("then_query", []):
+            try:
+                U.get_compatible_unit_names(u)
+            except ValueError:
+                pass
+    for pr in case["pairs"]:
+        ua, ub = pr["ua"], pr["ub"]
+        if any(u is not None and u not in ref for u in (ua, ub)):
+            continue
+        custom = any(u is not None and ref[u][1] is None for u in (ua, ub))
+        if custom:
+            def cmp_ok(fn):
+                try:
+                    return ("ok", fn())
+                except Exception as e:
+                    return ("raise", type(e).__name__)
+            c_ab, c_ba = cmp_ok(lambda: U.are_comparable(ua, ub)), cmp_ok(lambda: U.are_comparable(ub, ua))
+            if c_ab != c_ba and not (c_ab[0] == c_ba[0] == "raise"):
+                out.append(Violation("symmetric:added-custom-unit", "after adding units %r: are_comparable(%r,%r)=%r but are_comparable(%r,%r)=%r"
+                                     % ([a["unit"] for a in case["adds"]], ua, ub, c_ab, ub, ua, c_ba), case))
+            r_ab = cmp_ok(lambda: U.compare_values("<", pr["va"], ua, pr["vb"], ub))
+            r_ba = cmp_ok(lambda: U.compare_values(">", pr["vb"], ub, pr["va"], ua))
+            if (r_ab[0] == "raise") != (r_ba[0] == "raise"):
+                out.append(Violation("raise-sym:added-custom-unit", "compare_values raises in one order only for (%r,%r): %r vs %r" % (ua, ub, r_ab, r_ba), case))
+            continue
+        for v in _check_pair(pr, ref):
+            fam = v.sig.split(":")[0]
+            op = (":" + v.sig.split(":")[1]) if fam == "exact" else ""
+            out.append(Violation("%s%s:added-unit" % (fam, op), "after adding units %r (warm-up %r): %s"
+                                 % ([(a["unit"], a.get("quantity") or a.get("custom_quantity"), a.get("factor")) for a in case["adds"]], case.get("warm", []), v.msg), case))
+    return out
+
+
+def check_registry_case(case) -> list[Violation]:
+    import os, pickle
+    try:
+        adds = case["adds"]
+        assert isinstance(adds, list) and adds and isinstance(case["pairs"], list)
+        names = set()
+        for a in adds:
+            assert re.match(r"^xu[a-z]{1,3}$", a["unit"]) and a["unit"] not in names
+            names.add(a["unit"])
+            if a.get("custom_quantity"):
+                assert re.match(r"^xq[a-z]{1,3}$", a["custom_quantity"])
+            else:
+                assert a["quantity"] in ADDABLE and _DEC_RE.match(a["factor"]) and F(a["factor"]) > 0 and not a["factor"].startswith("-")
+        for pr in case["pairs"]:
+            assert _DEC_RE.match(pr["va"]) and _DEC_RE.match(pr["vb"])
+    except (AssertionError, KeyError, TypeError, ValueError, ZeroDivisionError):
+        return []   # outside the domain (shrinker)
+    r, w = os.pipe()
+    pid = os.fork()
+    if pid == 0:
+        code = 0
+        try:
+            os.close(r)
+            res = _registry_child(case)
+            with os.fdopen(w, "wb") as f:
+                pickle.dump([(v.sig, v.msg) for v in res], f)
+        except BaseException:
+            import traceback
+            try:
+                with os.fdopen(w, "wb") as f:
+                    pickle.dump(("error", traceback.format_exc()), f)
+            except Exception:
+                pass
+            code = 3
+        os._exit(code)
+    os.close(w)
+    with os.fdopen(r, "rb") as f:
+        data = f.read()
+    os.waitpid(pid, 0)
+    res = pickle.loads(data)
+    if isinstance(res, tuple) and res and res[0] == "error":
+        raise RuntimeError("registry scenario child failed:\n" + res[1])
+    return [Violation(sig, msg, case) for sig, msg in res]
+
+
+@st.composite
+def registry_cases(draw):
+    base_units = [u for u in REF if REF[u][2] == 0]
+    n = draw(st.integers(1, 3))
+    adds, names = [], []
+    for i in range(n):
+        unit = "xu" + "abc"[i]
+        names.append(unit)
+        if draw(st.integers(0, 5)) == 0:
+            adds.append({"unit": unit, "custom_quantity": "xq" + draw(st.sampled_from(["a", "b"]))})
+        else:
+            q = draw(st.sampled_from(sorted(ADDABLE)))
+            factor = draw(st.sampled_from(["10", "0.1", "0.001", "1000", "3", "0.3", "7e-3", "2.54", "1", "60"]))
+            adds.append({"unit": unit, "quantity": q, "factor": factor,
+                         "then_query": draw(st.lists(st.sampled_from(base_units + names), max_size=2))})
+    warm = draw(st.lists(st.sampled_from(base_units), max_size=4))
+    # make the interesting order likely: query an old unit of the quantity that later receives a unit
+    for a in adds:
+        if "quantity" in a and draw(st.booleans()):
+            warm.append(draw(st.sampled_from([u for u in REF if REF[u][0] == REF[ADDABLE[a["quantity"]]][0]])))
+    pairs = []
+    for _ in range(draw(st.integers(2, 6))):
+        a = draw(st.sampled_from(adds))
+        new = a["unit"]
+        if "quantity" in a and draw(st.integers(0, 3)) > 0:
+            other = draw(st.sampled_from([u for u in REF if REF[u][0] == REF[ADDABLE[a["quantity"]]][0]] + [x["unit"] for x in adds if x.get("quantity") == a["quantity"]]))
+        else:
+            other = draw(st.sampled_from(base_units + names))
+        ua, ub = (new, other) if draw(st.booleans()) else (other, new)
+        va = draw(decimal_strings())
+        mode = draw(st.sampled_from(["random", "image", "same"]))
+        vb = draw(decimal_strings())
+        if mode == "same":
+            vb = va
+        elif mode == "image" and "quantity" in a:
+            tmp = dict(REF)
+            for x in adds:
+                if "quantity" in x:
+                    tmp[x["unit"]] = (REF[ADDABLE[x["quantity"]]][0], F(x["factor"]) * REF[ADDABLE[x["quantity"]]][1], 0)
+            if ua in tmp and ub in tmp and tmp[ua][0] == tmp[ub][0]:
+                vb = _dec_str(F(va) * tmp[ua][1] / tmp[ub][1], 34)
+        pairs.append({"ua": ua, "ub": ub, "va": va, "vb": vb})
+    return {"kind": "registry", "warm": warm, "adds": adds, "pairs": pairs}
 
 
 # ---- generators ---------------------------------------------------------------------------------
@@ -215,6 +384,16 @@ def run_shard(col, cfg):
     pairs = [(a, b) for a in us for b in us]
     mine = pairs[col.shard::col.nshards]
     col.extra["unit_pairs_enumerated"] = len(mine)
+
+    def reg_body(case):
+        vs = check_registry_case(case)
+        warmed = any("quantity" in a and any(REF.get(w, ("",))[0] == REF[ADDABLE[a["quantity"]]][0] for w in case["warm"]) for a in case["adds"])
+        col.record(case, True, classes=["registry", "registry:warm-query-of-same-quantity" if warmed else "registry:cold",
+                                        "registry:adds=%d" % len(case["adds"])], violations=vs)
+
+    # registry scenarios run first (own share of the budget): the child then sees exactly the generated warm-up queries
+    hyp_run(registry_cases(), reg_body, cfg["registry_cases"], shard_seed(col.seed, col.shard) * 10000 + 9999, col)
+
     for i, (ua, ub) in enumerate(mine):
         if col.expired():
             break
@@ -227,7 +406,6 @@ def run_shard(col, cfg):
             col.record(case, nontrivial, classes=["mode:" + mode, "same-unit" if ua == ub else ("same-quantity" if same_quantity(ua, ub) else "cross-quantity")], violations=vs)
 
         hyp_run(value_pairs(ua, ub), body, cfg["per_pair"], shard_seed(col.seed, col.shard) * 10000 + i, col)
-
 
 def shrink_hints(case):
     for k in ("va", "vb"):
